@@ -14,17 +14,17 @@ from common import Ctx, MachineryError, pmap
 IMPL_SHARED = False
 FLAGS = dict(SetOnAllPaths=True, ClearOnError=True, CopyOnConstruct=True)
 DOCS = ["plain", "colA", "colB", "multi", "fig", "paged", "pagedhdr", "grpA", "grpB", "texA", "texB", "pgshare", "pgmulti", "subA", "subB",
-        "share2", "share3"]
+        "share2", "share3", "fnA", "fnB"]
 # (single tables with different column counts first: per-document layout state must not leak between encoders)
 # (a paginated document as the OTHER thread: wrong measurements made while A is parked change B's page breaks)
 # (group_by on different columns: per-document arguments must not be remembered on a process-wide service)
 # (documents built on ONE caller-owned RTFPage / RTFSubline / RTFBody: an encode must not edit, even temporarily, an
 #  object another thread's document reads)
 PAIRS = [("colA", "colB"), ("plain", "colB"), ("colB", "plain"), ("colB", "paged"), ("grpA", "grpB"), ("grpB", "grpA"), ("colB", "multi"),
-         ("pgmulti", "pgshare"), ("pgshare", "pgmulti"), ("subA", "subB"), ("share2", "share3"),
+         ("pgmulti", "pgshare"), ("pgshare", "pgmulti"), ("subA", "subB"), ("share2", "share3"), ("fnA", "fnB"),
          ("fig", "colA"), ("paged", "colB"), ("multi", "multi"), ("plain", "pagedhdr")]
-PLAN = {"quick": dict(gated=260, sites_pairs=11, every_instance=False, multi=60, nested_pairs=1),
-        "thorough": dict(gated=6000, sites_pairs=15, every_instance=True, multi=1500, nested_pairs=3)}
+PLAN = {"quick": dict(gated=260, sites_pairs=12, every_instance=False, multi=60, nested_pairs=1),
+        "thorough": dict(gated=6000, sites_pairs=16, every_instance=True, multi=1500, nested_pairs=3)}
 JUDGE = ["C14_Pure", "C14_Outcome", "C14_AllRan"]
 
 
@@ -164,7 +164,9 @@ def run(pid, tier, seed, replay=None):
         # 2b'. first use in the process: each run in a forked child of an import-only parent, thread A preempted at EVERY
         # library call (every instance), documents with LaTeX commands from both ends of the symbol table
         fitems = []
-        for (a, b) in [("texA", "texB")] + ([("texB", "texA"), ("colA", "texB")] if tier == "thorough" else []):
+        # (two figure documents embedding the same image: what one thread has half-way prepared for an image must not be
+        #  taken by the other for its own)
+        for (a, b) in [("texA", "texB"), ("fig", "fig")] + ([("texB", "texA"), ("colA", "texB"), ("fnA", "fnB")] if tier == "thorough" else []):
             # every call instance of a site that is called up to 8 times; of a site called more often (a loop filling a
             # table, say) the first three, the middle and the last two instances - the run count stays bounded whatever the
             # library does on first use
